@@ -15,6 +15,7 @@ CONSTANTS
   ReportOnce = FALSE
   MaxLevel = 100
   EmitJson = TRUE
+  PruneOnlyOwned = FALSE
   AtomicPush = TRUE
   FixSelect = TRUE
   FixDirect = TRUE
